@@ -859,9 +859,17 @@ func (g *gen) service(fi int) *Service {
 			save := g.cfg
 			g.cfg.ExtremeIDs = false // id 0 is `success`
 			g.fieldIDs(fn.Throws)
-			for _, t := range fn.Throws {
+			for ti, t := range fn.Throws {
 				if t.ID == 0 {
 					t.ID, t.HasID = 77, true
+				}
+				// a requiredness keyword in a throws list is accepted (with a warning) and ignored: the member of the
+				// synthesized result stays optional. Chosen from data already drawn, so the random stream is unchanged.
+				switch (int(t.ID) + len(fn.Args) + ti + len(sv.Functions)) % 3 {
+				case 0:
+					t.Req = Required
+				case 1:
+					t.Req = Optional
 				}
 			}
 			g.cfg = save
